@@ -65,7 +65,12 @@ def main(tier, seed):
     os.environ['VERIF_TIER_EFF'] = tier
     t0 = time.time()
     out = Outcome(PROP)
-    items, info = kcheck.gather(tier, seed, lambda mdl, u, t, d: ['c04'], QUOTAS[tier], out=out)
+    def want(mdl, u, t, d):
+        # c04r (re-encode clause by the solver): core (type, kind) pairs in the quick tier, every type in the thorough tier
+        if tier == 'thorough' or (d.core and 'c04r' in (d.core_kinds or {}).get(t, [])):
+            return ['c04', 'c04r'] if d.roundtrip else ['c04']
+        return ['c04']
+    items, info = kcheck.gather(tier, seed, want, QUOTAS[tier], out=out)
     log(f'[C04] {len(items)} harnesses selected of {info["candidates"]} candidates')
     cov = kcheck.run_and_judge(PROP, tier, seed, items, info, out, replay_native, None, own_prefixes=('C04:',))
     cov['functions_encoded'] = ['<T>::decode (generated, incl. parent decode + decode_partial for children)',
@@ -73,7 +78,8 @@ def main(tier, seed):
                                 'rf::eq_<T>']
     cov['disagreements_checked'] = cov['failed']
     cov['clauses'] = ['accept iff reference accepts', 'consumed length', 'every field value', 'single fault -> DecodeError variant']
-    cov['not_in_this_harness'] = 're-encode canonical (follows from C02/C03 on the same bounds; checked natively in replay)'
+    cov['clauses'].append('c04r harnesses: encode(decode_full(b)) == ref_encode(ref_decode(b)) for every accepted b (core pairs in the quick tier, every round-trippable type in the thorough tier)')
+    cov['functions_encoded'] += ['<T>::encode (c04r)', 'rf::ref_encode_<T> (c04r)']
     write_evidence(PROP, tier, seed, 'translation_validation', cov,
                    ['reference model validated on the canonical vectors; Rust rendering cross-checked against the Python rendering on every replay',
                     'inputs on which the reference exceeds its fixed capacity are assumed away (Fault::Cap)'],
